@@ -5,14 +5,14 @@ from lib.common import Broken, Violation, verdict, save_replay
 
 PROPS = {
     "C30": {
-        "text": "LfsVerify.tla transcribes Resolver.Resolve, Consumer.Unwrap (with the EnvelopeChecksum effective-algorithm rules) and the stream-mode download endpoint as functions of an abstract case (algorithm name, checksum/sha256 fields carrying the original's, the stored object's or a foreign digest, supplied size, stored object original/tampered/truncated/extended/empty, validate flag, size limit). TLC enumerates the whole bounded domain (3690 cases) and checks the C30 predicates on the transcription; every enumerated case is then run through the real functions on top of a fake s3API, and TLC evaluates the same predicates on the concrete results (hex checksums and byte counts of what was really returned/sent: layer O) and checks that each real result equals the transcription's (layer C).",
+        "text": "LfsVerify.tla transcribes Resolver.Resolve, Consumer.Unwrap (with the EnvelopeChecksum effective-algorithm rules) and the stream-mode download endpoint as functions of an abstract case (algorithm name, checksum/sha256 fields carrying the original's, the stored object's or a foreign digest, supplied size, stored object original/tampered/truncated/extended/empty, storage delivering in one piece or failing mid-stream on the first GET, validate flag, size limit). TLC enumerates the whole bounded domain (3870 cases) and checks the C30 predicates on the transcription; every enumerated case is then run through the real functions on top of a fake s3API, and TLC evaluates the same predicates on the concrete results (hex checksums and byte counts of what was really returned/sent: layer O) and checks that each real result equals the transcription's (layer C).",
         "note": "Trusted: TLC, Go's crypto/sha256, crypto/md5, hash/crc32 (used by the harness to compute the digests of returned bytes independently of pkg/lfs), the fake s3API. The property is read with the effective-algorithm rules of checksum.go: algorithm 'none' declares nothing, a missing `checksum` field falls back to the mandatory `sha256` field, an unknown algorithm can never be matched. Presign mode sends no bytes and is out of scope.",
         "technique": "TLA+ transcription (LfsVerify.tla) + TLC exhaustive enumeration of the bounded input domain + every case run through the real Go functions + TLC evaluation of the property predicates on real results (observation layer) and of result equality (conformance layer)",
     }
 }
 DEVIATIONS = {  # cfg suffix -> invariant TLC must report
     "ShortServed": "C30_ServeSize", "NoShaCheck": "C30_ServeSha", "NoFallback": "C30_ReaderChecksum",
-    "SkipMax": "C30_ReaderSize", "UnwrapNoAlgCheck": "C30_ReaderChecksum",
+    "SkipMax": "C30_ReaderSize", "UnwrapNoAlgCheck": "C30_ReaderChecksum", "RetryKeepsBuffer": "C30_ServeSha",
 }
 INVS = ["C30_ReaderChecksum", "C30_ReaderSize", "C30_ServeSha", "C30_ServeSize"]
 TARGETS = {
@@ -54,6 +54,8 @@ def sig_of(inv, ev):
         cls = "alg=%s,ck=%s" % (c["alg"] or "default", "absent" if c["ck"] == "absent" else "present")
     else:
         cls = "over_limit"
+    if c.get("fetch", "clean") != "clean":
+        cls += ",fetch=" + c["fetch"]
     return "%s@%s.%s" % (inv, c["entry"], cls)
 
 
